@@ -81,3 +81,9 @@ claim('C06', 'Coq theorems on the stream helpers and leaves + outcome-class corr
       'model); every strict prefix of canonical encodings of strict constructs must be StreamError; every k-th stream operation is made to raise / '
       'return short / empty, seek and tell to fail, for parse and build. Three recorded known findings (non-terminating zero-width repetition, '
       'swallowed stream failures, LazyStruct sibling KeyError).', 'DESIGN.md 6/C06')
+claim('C18', 'Coq theorem by induction over all construct classes (path extension) + exact-path correspondence + truncation/unbuildable/sizeof oracles',
+      'parse_path_extends and sizeof_path_extends: for every construct of the model and every loop, an error carries a path extending the one '
+      'the construct was entered with (proved by induction over all 59 classes); Renamed appends exactly its name. The exact path of every error '
+      'is compared between the extracted model and the library on every truncation offset of generated nested shapes (names drawn from a small '
+      'pool so that parent and child share names), on every leaf made unbuildable, on sizeof over unsized and key-less members; the oracle checks '
+      'the path against the layout bookkeeping of the generator.', 'DESIGN.md 6/C18')
